@@ -6,12 +6,15 @@ use std::ops::{Add, Mul, MulAssign, Neg};
 use std::sync::Arc;
 use xplore::*;
 
-pub const SCALARS: [f64; 16] = [
+pub const SCALARS: [f64; 19] = [
     0.0, -0.0, 1.0, -1.0, 2.0, 0.1, 1e-300, 1e300,
     1.0000000000000002, 0.9999999999999999, 1.00000000000025, -0.9999999999999, 1e5, 3e6, 1e-5, 1e-9,
+    // small odd whole numbers and a value that is exact in single precision with a full 24-bit significand
+    3.0, 7.0, 0.699999988079071,
 ];
 const CUBE: [f64; 3] = [0.0, 1.0, -2.5];
-const SWEEP: [f64; 4] = [-0.0, 1e-300, 1e300, 5e-324];
+// (the last three are exactly representable in f32: a full 24-bit significand, the largest odd f32 integer, f32::MAX)
+const SWEEP: [f64; 7] = [-0.0, 1e-300, 1e300, 5e-324, 0.699999988079071, 16777215.0, 3.4028234663852886e38];
 pub const LANE_ID: [f64; 10] = [1.5, -2.25, 3.125, -4.0625, 5.5, -6.75, 7.875, -8.9375, 9.96875, -10.984375];
 
 /// value-level view of a form: evaluation arguments and a majorant of the magnitudes of its terms
@@ -86,7 +89,9 @@ fn cmp_nums(what: &str, got: &[f64], want: &[f64]) -> Result<(), (String, Value)
 }
 fn close(what: &str, got: f64, want: f64, tol: f64, x: f64) -> Result<(), (String, Value)> {
     // absolute slack of the smallest normal number: products that underflow are outside the property
-    if !want.is_finite() || !tol.is_finite() || (got - want).abs() <= tol + f64::MIN_POSITIVE {
+    // ... and of terms within a factor 1e14 of the overflow threshold (tolerance above 1e280): there a correctly working
+    // evaluation may overflow in an intermediate sum, which the property does not exclude
+    if !want.is_finite() || !tol.is_finite() || tol > 1e280 || (got - want).abs() <= tol + f64::MIN_POSITIVE {
         Ok(())
     } else {
         Err((what.to_string(), json!({"x": fj(x), "got": fj(got), "expected": fj(want), "tolerance": tol})))
@@ -105,6 +110,10 @@ where
             let r = guard(|| f * s).map_err(|p| (format!("`*` panicked: {p}"), json!(p)))?;
             let want: Vec<f64> = a.iter().map(|&c| pm(c, s)).collect();
             cmp_nums("f * s is not the correctly rounded s*c number by number", &r.nums(), &want)?;
+            // (value level only when every resulting number is finite: a product or sum that overflows makes the function itself infinite)
+            if want.iter().any(|w| !w.is_finite()) {
+                return Ok(());
+            }
             for &x in T::args() {
                 close("(f*s)(x) != s*f(x)", r.evaluate(x), s * f.evaluate(x), VT * s.abs() * f.major(x), x)?;
             }
@@ -137,6 +146,10 @@ where
             let r = guard(|| -f).map_err(|p| (format!("neg panicked: {p}"), json!(p)))?;
             let want: Vec<f64> = a.iter().map(|c| -c).collect();
             cmp_nums("-f is not -c number by number", &r.nums(), &want)?;
+            // (value level only when every resulting number is finite: a product or sum that overflows makes the function itself infinite)
+            if want.iter().any(|w| !w.is_finite()) {
+                return Ok(());
+            }
             for &x in T::args() {
                 close("(-f)(x) != -f(x)", r.evaluate(x), -f.evaluate(x), VT * f.major(x), x)?;
             }
@@ -155,6 +168,10 @@ where
             let r = guard(|| f + g).map_err(|p| (format!("`+` panicked: {p}"), json!(p)))?;
             let want: Vec<f64> = a.iter().zip(b).map(|(&x, &y)| pa(x, y)).collect();
             cmp_nums("f1 + f2 is not the correctly rounded c1+c2 number by number", &r.nums(), &want)?;
+            // (value level only when every resulting number is finite: a product or sum that overflows makes the function itself infinite)
+            if want.iter().any(|w| !w.is_finite()) {
+                return Ok(());
+            }
             for &x in T::args() {
                 close("(f1+f2)(x) != f1(x)+f2(x)", r.evaluate(x), f.evaluate(x) + g.evaluate(x), VT * (f.major(x) + g.major(x)), x)?;
             }
@@ -175,6 +192,10 @@ where
             let mut want = a.to_vec();
             want[0] = pa(a[0], s); // the additive constant is number 0 of every form (coefficient 0, or k)
             cmp_nums("translate(c) must add c to the additive constant and change nothing else", &r.nums(), &want)?;
+            // (value level only when every resulting number is finite: a product or sum that overflows makes the function itself infinite)
+            if want.iter().any(|w| !w.is_finite()) {
+                return Ok(());
+            }
             for &x in T::args() {
                 close("translate(c) does not raise the value by c", r.evaluate(x), f.evaluate(x) + s, VT * (f.major(x) + s.abs()), x)?;
             }
@@ -207,6 +228,10 @@ fn q4_sub_case() -> OpCase {
             let r = guard(|| f - g).map_err(|p| (format!("`-` panicked: {p}"), json!(p)))?;
             let want: Vec<f64> = a.iter().zip(b).map(|(&x, &y)| ps(x, y)).collect();
             cmp_nums("f1 - f2 is not the correctly rounded c1-c2 number by number", &r.nums(), &want)?;
+            // (value level only when every resulting number is finite: a product or sum that overflows makes the function itself infinite)
+            if want.iter().any(|w| !w.is_finite()) {
+                return Ok(());
+            }
             for &x in IntOfLogPoly4::args() {
                 close("(f1-f2)(x) != f1(x)-f2(x)", r.evaluate(x), f.evaluate(x) - g.evaluate(x), VT * (f.major(x) + g.major(x)), x)?;
             }
@@ -324,6 +349,20 @@ pub fn check(thorough: bool, _seed: u64) -> Check {
             } else {
                 0.0
             };
+            // scalar operators: one number of the operand (first or last) moved to the overflow boundary of this scalar - the largest
+            // magnitude whose product with s is still finite, and its two neighbours
+            let mut a = a;
+            if c.scalar && s.abs() > 1.0 && s.is_finite() && !a.is_empty() {
+                let v = cx.choose(4);
+                if v > 0 {
+                    let mut bnd = f64::MAX / s.abs();
+                    if !pm(bnd, s.abs()).is_finite() {
+                        bnd = exact::pred(bnd);
+                    }
+                    let lane = if cx.flag() { 0 } else { a.len() - 1 };
+                    a[lane] = [bnd, -exact::pred(bnd), exact::succ(bnd)][v - 1];
+                }
+            }
             if a.iter().filter(|v| **v != 0.0).count() >= 2 {
                 cx.nontrivial();
             }
@@ -336,7 +375,7 @@ pub fn check(thorough: bool, _seed: u64) -> Check {
         classes: vec![],
         bounds: json!({"impls": "every operator implementation of every form (list under operator_impls)",
             "operands": format!("lane-identifier vector; cube over {{0,1,-2.5}} on the first {} numbers; every single number swept through {{-0.0,1e-300,1e300,5e-324}}", if thorough {10} else {7}),
-            "scalars": "{0,-0.0,1,-1,2,0.1,1e-300,1e300,succ(1),pred(1),1+2.5e-13,-1+1e-13,1e5,3e6,1e-5,1e-9} and, relative to the operand's additive constant c0: -c0, -succ(c0), -pred(c0), -(c0+2ulp)", "second operands": "8 vectors incl. the negated first operand (exact cancellation), the operand itself, copies one ulp apart in every / in one number, and a -0.0/1e300 pattern",
+            "overflow boundary": "for scalars of magnitude above 1: the first or last number set to the largest magnitude whose product with s is finite, its predecessor (negated) and its successor", "scalars": "{0,-0.0,1,-1,2,0.1,1e-300,1e300,succ(1),pred(1),1+2.5e-13,-1+1e-13,1e5,3e6,1e-5,1e-9,3,7,0.7f32} and, relative to the operand's additive constant c0: -c0, -succ(c0), -pred(c0), -(c0+2ulp)", "second operands": "8 vectors incl. the negated first operand (exact cancellation), the operand itself, copies one ulp apart in every / in one number, and a -0.0/1e300 pattern",
             "oracle": "IEEE primitive on each number, compared on bits; value level through the real evaluate at 3 arguments"}),
     };
     let mut extra = serde_json::Map::new();
